@@ -395,7 +395,18 @@ def check_shift_extent(P, ctx):
 def check_capacity(P, ctx):
     rule = 'C04.capacity'
     # Array: every function that raises nitems reserves before a slot is written
-    for fname in ('Array_Push', 'Array_Push_At', 'Array_Concat'):
+    from . import seqmodel, cint, absmodel
+    for fname, op in (('Array_Push', 'push'), ('Array_Push_At', 'push_at')):
+        # evaluated (seqmodel.eval_array_op): with no spare capacity every slot written must have been reserved first
+        fn = P.fn(P.slot('Array', 'Push', op))
+        ctx.fn(fn)
+        badv, badr, unsup_, _n = seqmodel.list_ops(P, 'Array')[op]
+        if unsup_ and not badv:
+            ctx.undecided(rule, fname, site(fn), 'leaves the evaluated fragment: ' + unsup_)
+        else:
+            ctx.check(badv is None, rule, fname, site(fn), 'the count is raised, the backing store is grown for it, and only then a slot is written (evaluated on arrays with no spare capacity)',
+                      [badv] if badv else None)
+    for fname in ('Array_Concat',):
         fn = P.fn(fname)
         g = P.cfg(fn)
         ctx.fn(fn)
@@ -407,26 +418,39 @@ def check_capacity(P, ctx):
         wr = [n for n in g.live() if n['expr'] is not None and any(ir.callee_name(c) in ('Array_Alloc', 'memmove', 'assign') for c in ir.calls(n['expr']))]
         ok = len(inc) == 1 and len(res) == 1 and g.must_pass(res[0]['id'], [inc[0]['id']]) and all(g.must_pass(w['id'], [res[0]['id']]) for w in wr) and bool(wr)
         ctx.check(ok, rule, fname, site(fn), 'the count is raised, the backing store is grown for it, and only then a slot is written (%d write sites)' % len(wr))
-    fn = P.fn('Array_Reserve_More')
-    g = P.cfg(fn)
-    N = util.Norm(P, fn, inline=True)
-    re = [(n, c) for n in g.live() if n['expr'] is not None for c in ir.calls(n['expr']) if ir.callee_name(c) == 'realloc']
-    ok = len(re) == 1
-    if ok:
-        n, c = re[0]
-        sz = poly.from_expr(N.canon(c[2][1]))
-        ok = sz == (poly.Poly.atom('arg0->tsize') + poly.Poly.atom('H')) * poly.Poly.atom('arg0->nslots')
-        gd = [x for x in g.live() if x['kind'] == 'cond' and N.canon(x['expr']) == ir.canon(('bin', '>', ('arrow', ('param', 'a', 0), 'nitems'), ('arrow', ('param', 'a', 0), 'nslots')))]
-        st = [x for x in g.live() if x['kind'] == 'stmt' and x['expr'] is not None and N.canon(x['expr'])[0] == 'assign' and N.canon(x['expr'])[2] == ('arrow', ('param', 0), 'nslots')]
-        ok = ok and len(gd) == 1 and len(st) == 1 and g.must_pass(n['id'], [st[0]['id']]) and g.must_pass(st[0]['id'], through_edges=[(gd[0]['id'], True)])
-        if ok:
-            rhs = N.canon(st[0]['expr'])[3]
-            ni = ('arrow', ('param', 0), 'nitems')
-            try:
-                ok = all(loops.ev(rhs, {ni: k}) >= k for k in (1, 2, 3, 10, 1000))
-            except NoEval:
-                ok = False
-    ctx.check(ok, rule, 'Array_Reserve_More', site(fn), 'when the count exceeds the slot count, the slot count becomes at least the count and the store is reallocated to step × slots bytes')
+    # Array_Reserve_More evaluated: afterwards the store holds at least `count` slots and the recorded slot count is what was reserved
+    fn = P.fn('Array_Reserve_More', required=False)
+    if fn is None:
+        ctx.proved(rule, 'Array_Reserve_More', site(P.fn(P.slot('Array', 'Push', 'push'))), 'no separate helper: growth is evaluated as part of push / push_at')
+    else:
+        ctx.fn(fn)
+        bad, unsup_ = None, None
+        for nitems in (0, 1, 2, 3, 10, 1000):
+            for nslots in (0, 1, 3, 10, 2000):
+                st = {'cap': nslots}
+                atoms = {('global', 'NULL'): 0, ('elem', 'self', 0, 'nitems'): nitems, ('elem', 'self', 0, 'nslots'): nslots, ('elem', 'self', 0, 'tsize'): 8,
+                         ('elem', 'self', 0, 'data'): 600000, ('elem', 'self', 0, 'type'): 8500}
+                step = absmodel.sub(P, 'Array_Step', [absmodel.SELF], atoms) if P.fn('Array_Step', required=False) else None
+
+                def call(nm, e, it, st=st, step=step):
+                    if nm == 'realloc':
+                        b_ = it.ev(e[2][1])
+                        st['cap'] = (b_ // step) if step and b_ % step == 0 else -1
+                        return 600000
+                    raise cint.NoEval('call %s' % nm)
+                it = cint.CInt(P, fn, atoms=atoms, call=call, recurse=True, strict=True)
+                it.atoms = atoms
+                r = it.run([absmodel.SELF])
+                if r[0] != 'ret':
+                    unsup_ = unsup_ or '%s' % (r[1],)
+                    continue
+                if st['cap'] < nitems or atoms[('elem', 'self', 0, 'nslots')] != st['cap']:
+                    bad = bad or 'count %d, %d slots: afterwards %s slots are reserved and the slot count says %s' % (nitems, nslots, st['cap'] if st['cap'] >= 0 else 'a fraction of', atoms[('elem', 'self', 0, 'nslots')])
+        if unsup_ and not bad:
+            ctx.undecided(rule, 'Array_Reserve_More', site(fn), 'leaves the evaluated fragment: ' + unsup_)
+        else:
+            ctx.check(bad is None, rule, 'Array_Reserve_More', site(fn), 'when the count exceeds the slot count, the slot count becomes at least the count and the store is reallocated to step × slots bytes (evaluated)',
+                      [bad] if bad else None)
     # the element size of an Array changes only while it has no slots: a store whose slot count was measured in the old step must not be reused
     fn = P.fn(P.slot('Array', 'Assign', 'assign'))
     g = P.cfg(fn)
@@ -573,10 +597,19 @@ def check_sort(P, ctx):
 
 def check_rem_first(P, ctx):
     rule = 'C04.rem-first'
+    from . import seqmodel
     for T in ('Array', 'List', 'Tuple'):
         fn = P.fn(P.slot(T, 'Get', 'rem'))
         g = P.cfg(fn)
         ctx.fn(fn)
+        if T in ('Array', 'List'):
+            # evaluated on small instances, including an argument equal to both the first and the last element (seqmodel)
+            badv, badr, unsup_, _n = seqmodel.list_ops(P, T)['rem']
+            if unsup_ and not badv:
+                ctx.undecided(rule, T, site(fn), 'rem leaves the evaluated fragment: ' + unsup_)
+            else:
+                ctx.check(badv is None, rule, T, site(fn), 'rem removes the first element equal to its argument and nothing else (evaluated)', [badv] if badv else None)
+            continue
         N = util.Norm(P, fn, inline=False)
         hits = [n for n in g.live() if n['kind'] == 'cond' and any(ir.callee_name(c) == 'eq' for c in ir.calls(n['expr']))]
         ok = len(hits) == 1
@@ -864,21 +897,18 @@ def check_full_scans(P, ctx):
     """mem and rem of an Array look at every element: the scan loop visits indices 0..nitems-1 in steps of one (decided by
     evaluating its header for counts 0..4).  A scan that stops one short misses the last element; one that runs one over
     compares memory behind the last element."""
-    from .rules_c01 import full_range
+    from . import seqmodel
     rule = 'C04.full-scan'
-    for fname in (P.slot('Array', 'Get', 'mem'), P.slot('Array', 'Get', 'rem')):
-        fn = P.fn(fname)
-        g = P.cfg(fn)
+    for op in ('mem', 'rem'):
+        fn = P.fn(P.slot('Array', 'Get', op))
         ctx.fn(fn)
-        conds = [n for n in g.live() if n['kind'] == 'cond' and util.mentions_field(n['expr'], 'nitems') and loops.counted_loop(g, None, n) is not None]
-        bad = None
-        if len(conds) != 1:
-            bad = 'expected one scan loop bounded by the count, found %d' % len(conds)
+        badv, badr, unsup_, _n = seqmodel.list_ops(P, 'Array')[op]
+        m = badv or (badr if op == 'rem' else None)
+        if unsup_ and not m:
+            ctx.undecided(rule, fn['name'], site(fn), 'leaves the evaluated fragment: ' + unsup_)
         else:
-            lp = full_range(g, conds[0], 'nitems', search=True)      # a search loop may stop at its hit
-            if isinstance(lp, str):
-                bad = lp
-        ctx.check(bad is None, rule, fname, site(fn), 'the element scan visits every index 0..count-1 once', [bad] if bad else None)
+            ctx.check(m is None, rule, fn['name'], site(fn), 'the element scan visits every index 0..count-1 and nothing outside the reservation: every present element is found, an absent '
+                      'one is not, on arrays of 0..3 elements with and without spare capacity (evaluated)', [m] if m else None)
     ctx.floor(rule, 2)
 
 
@@ -906,6 +936,8 @@ def run(ctx, load):
     from . import seqmodel
     seqmodel.report_list_ops(P, ctx, 'C04.list-operations', 'valid', site)
     ctx.floor('C04.list-operations', 9)
+    seqmodel.report_list_ops(P, ctx, 'C04.array-operations', 'valid', site, T='Array')
+    ctx.floor('C04.array-operations', 9)
     check_full_scans(P, ctx)
     # sort exchanges elements with swap(), whose fallback is memswap: every byte of both operands must be exchanged
     from .rules_c10 import check_memswap
